@@ -149,6 +149,8 @@ func (t *tr) coqType(ty *typ) string {
 		return "Z"
 	case "exitError": // a *exec.ExitError: (Exited(), Sys())
 		return "(bool * option Z)%type"
+	case "ast.FuncType", "ast.FieldList", "ast.Field", "ast.Expr", "ast.SelectorExpr", "ast.Ident":
+		return astCoq[ty.kind]
 	case "sysval": // what (*exec.ExitError).Sys() returns: Some c when it has ExitStatus() int = c
 		return "(option Z)"
 	case "digest":
@@ -164,6 +166,26 @@ func (t *tr) coqType(ty *typ) string {
 	}
 	die("internal: type %v", ty)
 	return ""
+}
+
+// go/ast types -> Base/GoLib.v (pointers to them are read like the values; a *ast.FieldList may be nil)
+var astCoq = map[string]string{"ast.FuncType": "ast_functype", "ast.FieldList": "ast_fieldlist", "ast.Field": "ast_field",
+	"ast.Expr": "ast_expr", "ast.SelectorExpr": "(ast_expr * string)%type", "ast.Ident": "string"}
+
+// field of a go/ast value -> (Coq projection, type of the field)
+var astFields = map[string]struct {
+	proj string
+	ty   *typ
+}{
+	"ast.FuncType.Params":     {"ft_params", &typ{kind: "ast.FieldList"}},
+	"ast.FuncType.Results":    {"ft_results", &typ{kind: "ast.FieldList"}},
+	"ast.FuncType.TypeParams": {"ft_typeparams", &typ{kind: "ast.FieldList"}},
+	"ast.FieldList.List":      {"fieldlist_List", tList(&typ{kind: "ast.Field"})},
+	"ast.Field.Names":         {"fld_names", tList(&typ{kind: "ast.Ident"})},
+	"ast.Field.Type":          {"fld_type", &typ{kind: "ast.Expr"}},
+	"ast.SelectorExpr.X":      {"fst", &typ{kind: "ast.Expr"}},
+	"ast.SelectorExpr.Sel":    {"snd", &typ{kind: "ast.Ident"}},
+	"ast.Ident.Name":          {"", tString},
 }
 
 func (t *tr) mention(s string) {
@@ -208,6 +230,11 @@ func (t *tr) typeOf(e ast.Expr) *typ {
 		}
 	case *ast.SelectorExpr: // a struct of another package whose (string) fields were named on the command line: %pkg.T=F1:F2
 		if pk, ok := v.X.(*ast.Ident); ok {
+			if t.imports[pk.Name] == "go/ast" { // the part of go/ast that Base/GoLib.v models
+				if _, ok := astCoq["ast."+v.Sel.Name]; ok {
+					return &typ{kind: "ast." + v.Sel.Name}
+				}
+			}
 			name := pk.Name + "_" + v.Sel.Name
 			if _, ok := t.structs[name]; ok && t.foreign[name] {
 				t.mention(name)
@@ -216,7 +243,7 @@ func (t *tr) typeOf(e ast.Expr) *typ {
 		}
 	case *ast.StarExpr:
 		u := t.typeOf(v.X)
-		if u.kind == "struct" {
+		if u.kind == "struct" || (strings.HasPrefix(u.kind, "ast.") && u.kind != "ast.Expr") {
 			return u
 		}
 	case *ast.ArrayType:
@@ -254,6 +281,16 @@ func (t *tr) zero(ty *typ) string {
 		return "(@nil (string * " + t.coqType(ty.elem) + "))"
 	case "error":
 		return "(@None string)"
+	case "ast.Field":
+		return "ast_field_zero"
+	case "ast.Expr":
+		return `(AOther "")`
+	case "ast.Ident":
+		return `""`
+	case "ast.SelectorExpr":
+		return `(AOther "", "")`
+	case "ast.FieldList":
+		return "(@None (list ast_field))"
 	case "struct":
 		return t.prefix + ty.name + "_zero"
 	}
@@ -447,6 +484,12 @@ func (t *tr) expr(e ast.Expr) (string, *typ) {
 			}
 		}
 		c, ty := t.expr(x.X)
+		if f, ok := astFields[ty.kind+"."+x.Sel.Name]; ok {
+			if f.proj == "" {
+				return c, f.ty
+			}
+			return "(" + f.proj + " " + c + ")", f.ty
+		}
 		if ty.kind != "struct" {
 			die("unsupported selector %s", t.text(e))
 		}
@@ -551,6 +594,12 @@ func (t *tr) binary(x *ast.BinaryExpr) (string, *typ) {
 				other = x.Y
 			}
 			c, ty := t.expr(other)
+			if ty.kind == "ast.FieldList" {
+				if x.Op == token.EQL {
+					return "(fieldlist_is_nil " + c + ")", tBool
+				}
+				return "(negb (fieldlist_is_nil " + c + "))", tBool
+			}
 			if ty.kind == "dynerr" {
 				if x.Op == token.EQL {
 					return "(dyn_is_nil " + c + ")", tBool
@@ -741,6 +790,8 @@ func (t *tr) call(x *ast.CallExpr) (string, *typ) {
 		c, ty := t.expr(f.X)
 		if len(x.Args) == 0 && !x.Ellipsis.IsValid() {
 			switch ty.kind + "." + f.Sel.Name {
+			case "ast.FieldList.NumFields":
+				return "(fieldlist_NumFields " + c + ")", tInt
 			case "exitStatuser.ExitStatus":
 				return c, tInt
 			case "exitError.Exited":
@@ -829,6 +880,15 @@ func (t *tr) libcall(path, name string, x *ast.CallExpr) (string, *typ) {
 		return "(Some " + a[0] + ")", tError
 	case "fmt.Errorf":
 		return "(Some " + t.format(x) + ")", tError
+	case "fmt.Sprint":
+		// of a go/ast expression: what fmt prints for the node is a parameter (for an *ast.Ident its name, through
+		// Ident.String; for other nodes a struct dump with pointer values)
+		if len(x.Args) == 1 && !x.Ellipsis.IsValid() {
+			if c, ty := t.expr(x.Args[0]); ty.kind == "ast.Expr" {
+				return "(" + t.addImplicit("fn_fmt_Sprint", "(ast_expr -> string)") + " " + c + ")", tString
+			}
+		}
+		die("fmt.Sprint is supported only for one go/ast expression: %s", t.text(x))
 	case "fmt.Sprintf":
 		return t.format(x), tString
 	}
@@ -1740,6 +1800,20 @@ func (t *tr) isExitStatusInterface(e ast.Expr) bool {
 	return ok && r.Name == "int"
 }
 
+// T is *ast.<name> of go/ast
+func (t *tr) isAstPtr(e ast.Expr, name string) bool {
+	st, ok := e.(*ast.StarExpr)
+	if !ok {
+		return false
+	}
+	sel, ok := st.X.(*ast.SelectorExpr)
+	if !ok || sel.Sel.Name != name {
+		return false
+	}
+	pk, ok := sel.X.(*ast.Ident)
+	return ok && t.imports[pk.Name] == "go/ast"
+}
+
 // T is *exec.ExitError of os/exec
 func (t *tr) isExecExitError(e ast.Expr) bool {
 	st, ok := e.(*ast.StarExpr)
@@ -1847,6 +1921,10 @@ func (t *tr) assign(s *ast.AssignStmt) string {
 				fn, rty = "sys_as_exitStatus", &typ{kind: "exitStatuser"}
 			case t.isExecExitError(ta.Type) && ty.kind == "dynerr":
 				fn, rty = "dyn_as_ExitError", &typ{kind: "exitError"}
+			case ty.kind == "ast.Expr" && t.isAstPtr(ta.Type, "SelectorExpr"):
+				fn, rty = "ast_as_Selector", &typ{kind: "ast.SelectorExpr"}
+			case ty.kind == "ast.Expr" && t.isAstPtr(ta.Type, "Ident"):
+				fn, rty = "ast_as_Ident", &typ{kind: "ast.Ident"}
 			default:
 				die("unsupported type assertion %s (only to interface{ ExitStatus() int } and *exec.ExitError, on an error of a function translated with !dyn)", t.text(ta))
 			}
